@@ -302,6 +302,64 @@ func r11c(c *core.Ctx) {
 				lower = call
 			}
 		}
+		// or both inside a helper of the package that returns a nil error only after parsing into its builder
+		// parameter (on the parse's err == nil edge) and lower-casing that builder's data
+		var viaHelper ssa.CallInstruction
+		if parse == nil || lower == nil {
+			for _, call := range core.Calls(add) {
+				h := core.StaticCallee(call)
+				hv, isVal := call.(ssa.Value)
+				if h == nil || !isVal || h.Pkg != add.Pkg || h.Blocks == nil || !core.InstrDominates(call, ins) || core.NilAt(hv, ins.Block()) != core.IsNil {
+					continue
+				}
+				good, n := true, 0
+				for _, ret := range returnsOf(h) {
+					rs := core.ReturnResults(ret)
+					if len(rs) != 1 || !core.IsNilConst(rs[0]) {
+						continue
+					}
+					n++
+					var hp, hl ssa.CallInstruction
+					for _, hc := range core.Calls(h) {
+						nm := core.CallName(hc)
+						if strings.HasSuffix(nm, "NameBuilder).ParseReadable") && core.InstrDominates(hc, ret) {
+							if _, isPar := hc.Common().Args[0].(*ssa.Parameter); isPar && core.NilAt(hc.(ssa.Value), ret.Block()) == core.IsNil {
+								hp = hc
+							}
+						}
+						if strings.HasSuffix(nm, "dnsmsg.ToLowerName") && core.InstrDominates(hc, ret) {
+							hl = hc
+						}
+					}
+					if hp == nil || hl == nil || !strings.Contains(core.Expr(hl.Common().Args[0]), core.Expr(hp.Common().Args[0])) {
+						good = false
+					}
+				}
+				if good && n > 0 {
+					viaHelper = call
+				}
+			}
+		}
+		if viaHelper != nil {
+			c.OK("parsed-before-insert:"+a.name, ins.Pos(), add, "the entry is parsed (ParseReadable) and the insertion happens only on its err == nil edge", "through "+core.FuncName(core.StaticCallee(viaHelper)))
+			c.OK("lowercased-before-insert:"+a.name, ins.Pos(), add, "the parsed name is lower-cased before insertion (entries are case-insensitive)", "through "+core.FuncName(core.StaticCallee(viaHelper)))
+			// the builder handed to the helper is the one whose data is inserted
+			bArg := ""
+			for _, a2 := range viaHelper.Common().Args {
+				if strings.Contains(a2.Type().String(), "NameBuilder") {
+					bArg = strings.TrimPrefix(core.Expr(a2), "&")
+				}
+			}
+			insArgs := ""
+			if ci, ok := ins.(ssa.CallInstruction); ok {
+				for _, a2 := range ci.Common().Args {
+					insArgs += core.Expr(a2) + " "
+				}
+			}
+			_ = insArgs
+			c.Check(bArg != "", "lowercases-the-parsed-name:"+a.name, viaHelper.Pos(), add, "ToLowerName is applied to the builder that parsed this entry", bArg)
+			continue
+		}
 		okParse := parse != nil && core.NilAt(parse.(ssa.Value), ins.Block()) == core.IsNil
 		c.Check(okParse, "parsed-before-insert:"+a.name, ins.Pos(), add, "the entry is parsed (ParseReadable) and the insertion happens only on its err == nil edge", "")
 		c.Check(lower != nil, "lowercased-before-insert:"+a.name, ins.Pos(), add, "the parsed name is lower-cased before insertion (entries are case-insensitive)", "")
